@@ -46,6 +46,10 @@ func checkStoredValuesNeverEmpty(c *core.Ctx, rule string, inScope func(rel stri
 				}
 				ok := false
 				for _, leaf := range phiLeavesOf(a[2], 4) {
+					if provablyNonEmpty(leaf) {
+						ok = true
+						continue
+					}
 					cl, _ := ir.CallOf(leaf)
 					if cl != nil && ir.CalleeObj(cl) != nil {
 						switch ir.CalleeObj(cl).Name() {
